@@ -40,7 +40,12 @@ func histScriptFor(ops []kmodel.Op) *histScript {
 			if o.Log {
 				fl |= 2
 			}
-			sc.Ops = append(sc.Ops, histOp{Op: "load", T: o.T, Kind: o.Kind, Flags: fl, NNP: o.NNP})
+			kind := o.Kind
+			if kind == kmodel.KindInvalid {
+				// three kinds of invalid policy, by thread: unknown syscall name / argument index 6 / empty condition list
+				kind = []string{"invalid", "invalid-arg6", "invalid-emptyconds"}[o.T%3]
+			}
+			sc.Ops = append(sc.Ops, histOp{Op: "load", T: o.T, Kind: kind, Flags: fl, NNP: o.NNP})
 		}
 		obs()
 	}
@@ -311,10 +316,13 @@ func checkC09(tier, replay string) int {
 	ctx.Cov["states"] = states
 	ctx.Cov["transitions"] = st.transitions
 	ctx.Cov["traces_validated_against_impl"] = st.replayed
+	refusedNoMem, budgetLoads := c09Budget(ctx)
+	ctx.Cov["budget_history_loads"] = budgetLoads
+	ctx.Cov["budget_history_refusals_ENOMEM"] = refusedNoMem
 	ctx.Cov["final_steps_by_kernel_answer"] = map[string]int64{"attached": st.attached, "tsync_refused": st.refusals, "EACCES": st.eacces, "EINVAL": st.einval, "invalid_policy_no_kernel_contact": st.invalid, "EPERM_from_an_earlier_filter_that_denies_seccomp": st.denied}
 	ctx.Cov["model_kernel_mismatches"] = st.modelMismatch
 	ctx.Cov["depth"] = depth
-	ctx.Cov["rule"] = "explicit-state breadth-first search over the kernel model (3 harness threads + the class of all other threads; per thread: no_new_privs bit and filter stack with ancestry) with 85 operations (Load on T0..T2 x {A,B,invalid,oversize,badflag,denysec = a filter that answers EPERM to seccomp(2) itself} x tsync x nnp, valid kinds also with the log flag; Supported) from the privileged and the uid-65534 initial state, deduplicated on the canonical model state; every transition is replayed by running its shortest history plus the operation through the real LoadFilter in a fresh child process, reading /proc/self/task/*/status and probing after every step"
+	ctx.Cov["rule"] = "explicit-state breadth-first search over the kernel model (3 harness threads + the class of all other threads; per thread: no_new_privs bit and filter stack with ancestry) with 85 operations (Load on T0..T2 x {A,B,invalid (unknown name / argument index 6 / empty condition list, by thread),oversize,badflag,denysec = a filter that answers EPERM to seccomp(2) itself} x tsync x nnp, valid kinds also with the log flag; Supported) from the privileged and the uid-65534 initial state, deduplicated on the canonical model state; every transition is replayed by running its shortest history plus the operation through the real LoadFilter in a fresh child process, reading /proc/self/task/*/status and probing after every step; plus the budget history: the same 3.7k-instruction filter is loaded on one thread until the kernel's per-thread limit (32768 instructions) refuses it with ENOMEM - after every one of the 12 loads nil <=> the thread's filter count grew"
 	ctx.Assumptions = []string{"kernel model kmodel (validated against this kernel on every transition: model_kernel_mismatches must be 0)", "state deduplication is sound because the compared observables (NNP, filter count, probe answers of every thread) plus the ancestry structure kept in the canonical form are the whole state the kernel rules depend on", "runtime threads other than the three harness threads only change through thread-sync"}
 	return ctx.Finish()
 }
@@ -332,6 +340,24 @@ func replayC09(path string) int {
 		return 2
 	}
 	ctx := evid.New("C09-replay", "quick", "model_checking")
+	var b struct {
+		Case struct {
+			Budget bool `json:"budget_history"`
+		} `json:"case"`
+	}
+	if readJSON(path, &b) == nil && b.Case.Budget {
+		fmt.Println("replaying the budget history (12 loads of one large filter on one thread; root and uid 65534, without and with thread-sync)")
+		c09Budget(ctx)
+		if ctx.NumViolations() > 0 {
+			for _, l := range ctx.Describe() {
+				fmt.Println(l)
+			}
+			fmt.Println("REPRODUCED")
+			return 1
+		}
+		fmt.Println("not reproduced (property holds on this history)")
+		return 0
+	}
 	st := &c09Stats{}
 	fmt.Printf("replaying history (privileged=%v): %s\n", f.Case.Priv, histString(f.Case.History))
 	sc := histScriptFor(f.Case.History)
@@ -346,4 +372,60 @@ func replayC09(path string) int {
 	}
 	fmt.Println("not reproduced (property holds on this history)")
 	return 0
+}
+
+// c09Budget: a history the breadth-first search cannot reach (it needs nine loads): the same large filter is loaded on one
+// thread again and again; the kernel refuses with ENOMEM once the thread's filters exceed 32768 instructions in total. The
+// property oracle needs no model here: after every load, nil <=> the thread's filter count grew by one.
+func c09Budget(ctx *evid.Ctx) (refused, loads int64) {
+	for _, priv := range []bool{true, false} {
+		for _, tsync := range []uint32{0, 1} {
+			sc := &histScript{Threads: c09Threads}
+			sc.Ops = append(sc.Ops, histOp{Op: "state"})
+			const n = 12
+			for i := 0; i < n; i++ {
+				sc.Ops = append(sc.Ops, histOp{Op: "load", T: 0, Kind: "huge", Flags: tsync, NNP: true}, histOp{Op: "state"})
+			}
+			hr := runHist(sc, !priv)
+			if p := loadPanic(hr.Results); p != "" {
+				ctx.Violation("C09:load-panicked:budget", "LoadFilter panicked in the budget history: "+p, map[string]any{"privileged": priv, "budget_history": true, "tsync": tsync})
+				continue
+			}
+			if hr.TimedOut || len(hr.Results) != 1+2*n {
+				ctx.Capped("the budget history child did not complete")
+				continue
+			}
+			count := func(r histResult, tid int) int {
+				for _, o := range r.State {
+					if o.Tid == tid {
+						return o.Filters
+					}
+				}
+				return -1
+			}
+			sawRefusal := false
+			for i := 0; i < n; i++ {
+				ld, before, after := hr.Results[1+2*i], hr.Results[2*i], hr.Results[2+2*i]
+				loads++
+				fb, fa := count(before, ld.Tid), count(after, ld.Tid)
+				rep := map[string]any{"privileged": priv, "budget_history": true, "tsync": tsync, "load_number": i + 1}
+				switch {
+				case ld.Err == nil && fa != fb+1:
+					ctx.Violation("C09:nil-without-filter:budget", fmt.Sprintf("load #%d of the same %s filter on one thread returned nil but the thread's filter count went %d -> %d (the kernel refuses once 32768 instructions are exceeded)", i+1, "3.7k-instruction", fb, fa), rep)
+				case ld.Err != nil && fa != fb:
+					ctx.Violation("C09:failed-load-left-filter:budget", fmt.Sprintf("load #%d failed (%s) but the filter count went %d -> %d", i+1, *ld.Err, fb, fa), rep)
+				}
+				if ld.Err != nil {
+					sawRefusal = true
+					if strings.Contains(*ld.Err, "cannot allocate memory") {
+						refused++
+					}
+				}
+			}
+			if !sawRefusal {
+				ctx.Capped("the kernel never refused in the budget history (limit not reached?)")
+			}
+		}
+	}
+	return
 }
